@@ -146,3 +146,36 @@ def run(ctx, prop):
                         ctx.violation("C16/wide-node/hook-sequence", "hook-sequence", case, expected={"length": len(events), "from_first_difference": [list(map(str, e[:2])) for e in events[d:d + 4]]},
                                       observed={"length": len(seen), "from_first_difference": [list(map(str, e[:2])) for e in seen[d:d + 4]]})
                         return
+    if prop in ("C01", "C03"):
+        mixed(ctx, prop, classes)
+
+
+def mixed(ctx, prop, classes):
+    """A root of one mixin offered to a node of the other mixin: the unchanged library refuses with AttributeError (the
+    mixins keep their bookkeeping under different private names) before anything has changed; the refusal must leave both
+    link directions as they were."""
+    for (fa, ca), (fb, cb) in ((classes[0], classes[1]), (classes[1], classes[0])):
+        host, hk = cb("host"), cb("hk")
+        hk.parent = host
+        n, c = ca("n"), ca("c")
+        c.parent = n
+        nodes = [host, hk, n, c]
+        for what, op in (("n.parent = host", lambda: setattr(n, "parent", host)), ("host.children = [hk, n]", lambda: setattr(host, "children", [hk, n]))):
+            case = {"directed": "%s root offered to a %s node" % (fa, fb), "step": what, "wide_node": True}
+            ctx.case(("mixed", fa, fb, what))
+            ctx.count("mon.%s.mixed_mixins" % prop)
+            before = _snap(nodes)
+            try:
+                op()
+                got = "ok"
+            except BaseException as e:  # noqa: B902
+                got = type(e).__name__
+            after = _snap(nodes)
+            if prop == "C01":
+                prob = _invariant(nodes)
+                if prob:
+                    ctx.violation("C01/mixed-mixins/invariant", "forest-invariant", case, expected="invariant I", observed={"outcome": got, "problem": prob})
+                    return
+            elif got != "ok" and after != before:
+                ctx.violation("C03/mixed-mixins/changed", "state-unchanged", case, expected="forest untouched by the raising call", observed={"outcome": got, "before": before, "after": after})
+                return
